@@ -91,6 +91,17 @@ func NewSession(server *Server, id int, conn net.Conn, logger zerolog.Logger) *S
 	}
 }
 
+// mailboxFor returns the name of the mailbox a user asks for: the canonical mailbox name of the
+// given name or address when the server has an addressing policy, the argument itself otherwise.
+func (s *Session) mailboxFor(user string) string {
+	if s.AddrPolicy != nil {
+		if name, err := s.AddrPolicy.ExtractMailbox(user); err == nil {
+			return name
+		}
+	}
+	return user
+}
+
 func (s *Session) String() string {
 	return fmt.Sprintf("Session{id: %v, state: %v}", s.id, s.state)
 }
@@ -244,7 +255,7 @@ func (s *Session) authorizationHandler(cmd string, args []string) {
 
 	case "USER":
 		if len(args) > 0 {
-			s.user = args[0]
+			s.user = s.mailboxFor(args[0])
 			s.send(fmt.Sprintf("+OK Hello %v, welcome to Inbucket", s.user))
 		} else {
 			s.send("-ERR Missing username argument")
@@ -263,7 +274,7 @@ func (s *Session) authorizationHandler(cmd string, args []string) {
 			s.send("-ERR APOP requires two arguments")
 			return
 		}
-		s.user = args[0]
+		s.user = s.mailboxFor(args[0])
 		s.loadMailbox()
 		s.send(fmt.Sprintf("+OK Found %v messages for %v", s.msgCount, s.user))
 		s.enterState(TRANSACTION)
